@@ -57,7 +57,7 @@ def o_sorter(ctx):
 
 # -- topping up -----------------------------------------------------------------------
 
-UNIVERSE = [('N', 10), ('CA', 10), ('CB', 10), ('N', 11), ('CA', 11)]
+UNIVERSE = [('N', 10, 'A'), ('CA', 10, 'A'), ('CB', 10, 'A'), ('N', 11, 'A'), ('N', 10, 'B')]
 
 
 def mk_topup(nconf, universe=None):
@@ -68,36 +68,74 @@ def mk_topup(nconf, universe=None):
         mol = H.molecule(p)
         names = ['1A', '1B', '1C'][:nconf]
         originals = {}
-        # residue 10 may be ALA in one conformation and SER in another (alt-loc point mutant)
+        # residue 10 of chain A may be ALA in one conformation and SER in another (alt-loc point mutant);
+        # residue 10 of chain B is a LYS everywhere; residue 11 carries an insertion code
         resname10 = {nm: ctx.choice('res10_' + nm, ['ALA', 'SER']) for nm in names}
         for nm in names:
             conf = H.conformation(nm, p=p, mol=mol)
             originals[nm] = []
-            for (an, rn) in UNIV:
-                if ctx.choice('present_%s_%s%d' % (nm, an, rn), [False, True]):
-                    a = H.atom(an, resname10[nm] if rn == 10 else 'GLY', rn, 'A', 1.0, 2.0, 3.0)
+            for (an, rn, ch) in UNIV:
+                if ctx.choice('present_%s_%s%d%s' % (nm, an, rn, ch), [False, True]):
+                    res = 'LYS' if ch == 'B' else (resname10[nm] if rn == 10 else 'GLY')
+                    a = H.atom(an, res, rn, ch, 1.0 + len(nm), 2.0, 3.0, icode='A' if rn == 11 else ' ')
                     conf.add_atom(a)
                     originals[nm].append(a)
         ctx.assume(any(originals[nm] for nm in names))
         mol.top_up_conformations()
+        every = [a for nm in names for a in originals[nm]]
         for nm in names:
             conf = mol.conformations[nm]
             ctx.claim('originals-kept', all(any(a is b for b in conf.atoms) for a in originals[nm]))
             ctx.claim('no-duplicates', len({(a.name, a.res_num, a.chain_id) for a in conf.atoms}) == len(conf.atoms))
-            for rn in (10, 11):
-                types = {a.res_name for a in conf.atoms if a.res_num == rn}
-                ctx.claim('one-residue-type-per-position', len(types) <= 1, detail='%s residue %d: %r' % (nm, rn, types))
-        for rn in (10, 11):
-            all_types = {a.res_name for nm in names for a in originals[nm] if a.res_num == rn}
+            for rn, ch in {(r, c) for _, r, c in UNIV}:
+                types = {a.res_name for a in conf.atoms if a.res_num == rn and a.chain_id == ch}
+                ctx.claim('one-residue-type-per-position', len(types) <= 1, detail='%s residue %d%s: %r' % (nm, rn, ch, types))
+            for a in conf.atoms:
+                # a topped-up atom is a faithful copy of an atom some conformation had
+                ok = any((a.name, a.res_name, a.res_num, a.chain_id, a.icode, a.element, a.type, a.x, a.y, a.z) ==
+                         (o.name, o.res_name, o.res_num, o.chain_id, o.icode, o.element, o.type, o.x, o.y, o.z) for o in every)
+                ctx.claim('copies-carry-every-identity-field', ok,
+                          detail='%s: %r' % (nm, (a.name, a.res_name, a.res_num, a.chain_id, a.icode, a.element, a.type)))
+                ctx.claim('copied-atoms-belong-to-their-container', a.conformation_container is conf)
+        for rn, ch in {(r, c) for _, r, c in UNIV}:
+            all_types = {a.res_name for a in every if a.res_num == rn and a.chain_id == ch}
             if len(all_types) == 1:
-                union = {a.name for nm in names for a in originals[nm] if a.res_num == rn}
+                union = {a.name for a in every if a.res_num == rn and a.chain_id == ch}
                 for nm in names:
-                    have = {a.name for a in mol.conformations[nm].atoms if a.res_num == rn}
-                    ctx.claim('completed-to-the-union', have == union, detail='%s residue %d: %r vs %r' % (nm, rn, have, union))
-        for nm in names:
-            for a in mol.conformations[nm].atoms:
-                ctx.claim('copied-atoms-belong-to-their-container', a.conformation_container is mol.conformations[nm])
+                    have = {a.name for a in mol.conformations[nm].atoms if a.res_num == rn and a.chain_id == ch}
+                    ctx.claim('completed-to-the-union', have == union, detail='%s residue %d%s: %r vs %r' % (nm, rn, ch, have, union))
     return body
+
+
+def o_average_mutant_twin(ctx):
+    """a position that is HIS in one conformation and ASP in another (both groups are centred on an atom
+    called CG): both groups exist somewhere, both are reported, each averaged over its own conformations"""
+    p = H.params()
+    mol = H.molecule(p)
+    order = ctx.choice('which_type_first', ['HIS-first', 'ASP-first'])
+    specs = [('HISGroup', 'HIS', 1), ('COOGroup', 'ASP', -1)]
+    if order == 'ASP-first':
+        specs.reverse()
+    made = []
+    for nm, (cls, res, q) in zip(['1A', '1B'], specs):
+        conf = H.conformation(nm, p=p, mol=mol)
+        g = mk_group(cls, res, 23, 'CG', q=q, p=p)
+        g.model_pka = p.model_pkas[res]
+        g.energy_volume = ctx.real('ev_' + res, -3, 3)
+        g.calculate_total_pka()
+        o = mk_group('LYSGroup', 'LYS', 40, 'NZ', q=1, p=p)
+        o.model_pka = 10.5
+        o.calculate_total_pka()
+        conf.groups.extend([g, o])
+        made.append(g)
+    mol.average_of_conformations()
+    avr = mol.conformations['AVR']
+    for g in made:
+        got = [a for a in avr.groups if a.label == g.label and a.type == g.type]
+        ctx.claim('both-mutant-groups-reported', len(got) == 1, detail='%s reported %d times' % (g.label, len(got)))
+        if len(got) == 1:
+            ctx.claim('averaged-over-its-own-conformation', eq(got[0].pka_value, g.pka_value))
+    ctx.claim('common-group-once', len([a for a in avr.groups if a.label == 'LYS  40 A']) == 1)
 
 
 # -- averaging with presence bits ---------------------------------------------------------
@@ -195,10 +233,10 @@ def obligations(tier):
     obs.append(Obligation('O2-top-up[2 conformations]', mk_topup(2),
                           code=[M + 'top_up_conformations', 'propka/conformation_container.py:ConformationContainer.top_up_from_atoms',
                                 'propka/conformation_container.py:ConformationContainer.copy_atom', 'propka/atom.py:Atom.make_copy'],
-                          bounds='2 conformations x 5 atom identities (2 residues) with presence chosen by fork; residue 10 ALA or SER per conformation',
-                          claim_doc='originals kept; never two residue types at one position; agreed positions completed to the union',
+                          bounds='2 conformations x 5 atom identities (residues 10, 11A of chain A and residue 10 of chain B) with presence chosen by fork; residue A10 ALA or SER per conformation',
+                          claim_doc='originals kept; never two residue types at one position; agreed positions completed to the union; copies carry every identity field (incl. insertion code)',
                           max_paths=100000, shards=8, wall_s=170))
-    obs.append(Obligation('O2-top-up[3 conformations, one residue]', mk_topup(3, universe=[('N', 10), ('CA', 10), ('CB', 10)]), code=obs[-1].code,
+    obs.append(Obligation('O2-top-up[3 conformations, one residue]', mk_topup(3, universe=[('N', 10, 'A'), ('CA', 10, 'A'), ('CB', 10, 'A')]), code=obs[-1].code,
                           bounds='3 conformations x 3 atom identities of one residue with presence chosen by fork; residue ALA or SER per conformation',
                           claim_doc=obs[-1].claim_doc, max_paths=200000, shards=8, wall_s=170))
     obs.append(Obligation('O3-average-over-containing-conformations[K=2]', mk_average_presence(2),
@@ -207,6 +245,8 @@ def obligations(tier):
                           bounds='2 conformations; the group exists in a non-empty subset (fork), a second group exists everywhere; all values symbolic',
                           claim_doc='reported once; every averaged field is the mean over the conformations containing the group',
                           stop_on_violation=False))
+    obs.append(Obligation('O3-average-mutant-twin', o_average_mutant_twin, code=obs[-1].code,
+                          bounds='2 conformations: residue 23 is HIS in one and ASP in the other (either order), a common LYS in both', claim_doc='both mutant groups reported once with their own values'))
     obs.append(Obligation('O4-single-and-identical', o_single_and_identical, code=[M + 'average_of_conformations'],
                           bounds='K in {1,2,3} identical conformations, determinant pattern (2,1,1), symbolic values',
                           claim_doc='the average reproduces the (common) conformation'))
